@@ -180,12 +180,46 @@ class View:
                 cur.classifies.append(ev)
             elif t == "srec" and ev[1] == "failure":
                 cur.t_decide = max(cur.t_decide, ev[4])  # the engine re-reads the clock after strategy.record_failure
+        self._phantom_handler_answers()
         self.nops = len(self.segs)
         self.pre_poll_true = any(ev[0] == "poll" and ev[2] for ev in self.pre)
         self.pre_terminals = [ev for ev in self.pre if ev[0] == "metric" and ev[1] in TERMINALS]
         self.deadline = cfg["deadline_s"]
         self.final = rec.final
         self.is_execute = rec.entry.endswith(".execute")
+
+    def winner(self, name):
+        """Which of the configured callbacks of kind `name` (handler / before_sleep / sleeper) governs THIS call: "call", "policy" or None."""
+        place = self.sc.get("place") or {}
+        where = place.get(name, "call" if name == "sleeper" else "none")
+        deco = self.rec.entry.lstrip("a").startswith("deco")
+        if not deco:
+            kw_ = {"handler": "sleep"}.get(name, name)
+            if kw_ in (self.env.get("drop_call_kw") or ()):
+                where = {"call": "none", "both": "policy"}.get(where, where)  # a per-call argument this particular call did not pass
+        if where in (None, "none"):
+            return None
+        if deco:
+            return "policy"
+        return "call" if where in ("call", "both") else "policy"
+
+    def _phantom_handler_answers(self):
+        """A configured sleep handler that the library did not consult although it went on to sleep or to attempt again still has
+        an answer: the one its script holds for that consultation.  Recording it (marked) lets every oracle that follows handler
+        decisions judge the run against what the caller's handler says, not against what the library chose to ask."""
+        wh = self.winner("handler")
+        script = self.env.get("handler")
+        if wh is None or not script:
+            return
+        asked = 0
+        for j, s in enumerate(self.segs):
+            if s.handlers:
+                asked += len(s.handlers)
+                continue
+            moved_on = bool(s.sleeps or s.bsleeps or j + 1 < len(self.segs))
+            if s.retries and moved_on and not s.poll_true:
+                s.handlers.append(("handler", wh, s.i, s.retries[-1][3], script[asked % len(script)], "not-consulted"))
+                asked += 1
 
     # ------------------------------------------------------------------ facts
     def all_terminals(self):
